@@ -1,5 +1,6 @@
 (* C17 — Sort orders in place without losing elements; Reverse is an exact involution. *)
 From Anytype Require Import Base FloatBits Value Sorting.
+From Anytype Require Heap Footprint.
 From Coq Require Import Permutation Sorted.
 Local Open Scope Z_scope.
 
@@ -42,7 +43,54 @@ Example C17_bad_bound_refuted :
   rev_loop 4 ((4 - 1) / 2) [VInt 1; VInt 2; VInt 3; VInt 4] <> rev [VInt 1; VInt 2; VInt 3; VInt 4].
 Proof. vm_compute. congruence. Qed.
 
+(* ---- in place, on the heap (Heap.v: the list a register names is a cell; every alias names the same cell) ----
+   Reverse and Sort write exactly the receiver's own cell and nothing else: the same cell afterwards holds the reversed / sorted
+   sequence (so every alias sees it and the identity of the list is unchanged), every other cell and every register is as before,
+   the heap has the same size (nothing is allocated); a Sort that panics changes nothing at all. *)
+Theorem C17_heap_reverse_in_place : forall s r id l, Heap.reg_list s r = Some (id, l) ->
+  let s' := fst (Heap.step_core s (Heap.LReverse r)) in
+  snd (Heap.step_core s (Heap.LReverse r)) = Heap.Ret Heap.ONone /\
+  Heap.st_env s' = Heap.st_env s /\ length (Heap.st_heap s') = length (Heap.st_heap s) /\
+  nth_error (Heap.st_heap s') id = Some (Heap.CList (rev l)) /\
+  forall j, j <> id -> nth_error (Heap.st_heap s') j = nth_error (Heap.st_heap s) j.
+Proof.
+  intros s r id l H. cbn [Heap.step_core]. rewrite H. cbn [fst snd Heap.with_heap Heap.st_env Heap.st_heap].
+  unfold Heap.set_list. rewrite upd_length, reverse_model_rev.
+  assert (Hid : (id < length (Heap.st_heap s))%nat) by exact (proj2 (Footprint.reg_list_inv _ _ _ _ H)).
+  repeat split; auto.
+  - apply nth_error_upd_eq; exact Hid.
+  - intros j Hj. apply nth_error_upd_neq. congruence.
+Qed.
+Theorem C17_heap_sort_in_place : forall s r id l, Heap.reg_list s r = Some (id, l) ->
+  let s' := fst (Heap.step_core s (Heap.LSort r)) in
+  match Heap.l_sort l with
+  | Ok l' => snd (Heap.step_core s (Heap.LSort r)) = Heap.Ret Heap.ONone /\
+             Heap.st_env s' = Heap.st_env s /\ length (Heap.st_heap s') = length (Heap.st_heap s) /\
+             nth_error (Heap.st_heap s') id = Some (Heap.CList l') /\
+             forall j, j <> id -> nth_error (Heap.st_heap s') j = nth_error (Heap.st_heap s) j
+  | Panic => Heap.step_core s (Heap.LSort r) = (s, Heap.Pan)
+  end.
+Proof.
+  intros s r id l H. cbn [Heap.step_core]. rewrite H. destruct (Heap.l_sort l) as [l'|]; [|reflexivity].
+  cbn [fst snd Heap.with_heap Heap.st_env Heap.st_heap]. unfold Heap.set_list. rewrite upd_length.
+  assert (Hid : (id < length (Heap.st_heap s))%nat) by exact (proj2 (Footprint.reg_list_inv _ _ _ _ H)).
+  repeat split; auto.
+  - apply nth_error_upd_eq; exact Hid.
+  - intros j Hj. apply nth_error_upd_neq. congruence.
+Qed.
+(* what the sorted cell holds is the pure Sort of the element sequence (the scalars read as values and written back) *)
+Theorem C17_heap_sort_is_sort_model : forall l, Heap.l_sort l =
+  match sort_model (map Heap.val_of_hscalar l) with Ok s => Ok (map Heap.hscalar_of_val s) | Panic => Panic end.
+Proof. reflexivity. Qed.
+Example C17_heap_nonvacuous :
+  let s := fst (Heap.step Heap.init_state (Heap.NewList [Heap.Lit (Heap.HInt 3); Heap.Lit (Heap.HInt (-1)); Heap.Lit (Heap.HInt 2)])) in
+  Heap.reg_list s 0 = Some (0%nat, [Heap.HInt 3; Heap.HInt (-1); Heap.HInt 2]) /\
+  Heap.l_sort [Heap.HInt 3; Heap.HInt (-1); Heap.HInt 2] = Ok [Heap.HInt (-1); Heap.HInt 2; Heap.HInt 3].
+Proof. vm_compute. split; reflexivity. Qed.
+
 Print Assumptions C17_sort.
+Print Assumptions C17_heap_reverse_in_place.
+Print Assumptions C17_heap_sort_in_place.
 Print Assumptions C17_sort_idempotent.
 Print Assumptions C17_sort_reject.
 Print Assumptions C17_unique_ints.
